@@ -113,7 +113,7 @@ func runWorldA(rc *RunCtx, prop string) *RunResult {
 	w.keyTypes = ktPool[T.Draw(len(ktPool), "cfg.keytypes")]
 
 	switch prop {
-	case "C02", "C03", "C12":
+	case "C02", "C03", "C12", "C04":
 		w.scheme = T.Draw(3, "cfg.numbering")
 	default:
 		w.scheme = T.Draw(2, "cfg.numbering")
@@ -132,8 +132,12 @@ func runWorldA(rc *RunCtx, prop string) *RunResult {
 	mk := func(genesis uint64, timeDelta uint64) *simenv.Version {
 		p := simenv.DefaultProtocol(genesis)
 		p.MultihashAlgorithms = []uint{w.hash}
-		if T.Draw(2, "cfg.bothhash") == 1 {
+
+		switch T.Draw(3, "cfg.bothhash") {
+		case 1:
 			p.MultihashAlgorithms = []uint{w.hash, simenv.SHA2_256 + simenv.SHA2_512 - w.hash}
+		case 2: // the DID's algorithm is the protocol's second one (its suffix is then computed by the harness, see anchorCreate)
+			p.MultihashAlgorithms = []uint{simenv.SHA2_256 + simenv.SHA2_512 - w.hash, w.hash}
 		}
 
 		p.MaxOperationTimeDelta = timeDelta
@@ -1049,9 +1053,22 @@ func (w *aWorld) anchorUnauthorised(st *refmodel.State) {
 		p.kind = "unauth-reveal-mismatch-2"
 	}
 
+	// an unauthorised operation may in addition carry an unusable delta (an applier that takes its
+	// "bad delta" shortcut before checking the signature must not let it through)
+	if typ != operation.TypeDeactivate && T.Draw(3, "unauth.baddelta") == 0 {
+		cls, failing, big := w.deltaClass("baddelta")
+		p.delta, p.invalidBig = cls, big
+
+		if failing {
+			p.patches = w.genPatches(true, false)
+		}
+
+		p.kind += "+baddelta"
+	}
+
 	req, m := w.build(p)
 
-	if p.kind == "unauth-foreign-key" {
+	if strings.HasPrefix(p.kind, "unauth-foreign-key") {
 		m.Authentic = true // validly signed – but by a key nobody committed to
 	}
 
@@ -1410,6 +1427,13 @@ func (w *aWorld) oracleAltParams(rm *protocol.ResolutionModel, err error) {
 func (w *aWorld) oracleTerminal(rm *protocol.ResolutionModel, err error, st *refmodel.State) {
 	cur := dump(rm, err, false)
 
+	// (with arbitrary transaction numbers a later event may sort BEFORE the deactivate and legitimately
+	// change what is resolved; the snapshot oracle applies when event order is anchoring order, the
+	// reference model covers the rest)
+	if w.scheme == 2 && st != nil && st.Deactivated {
+		return
+	}
+
 	if w.deactSnap != "" {
 		if cur != w.deactSnap {
 			last := w.ops[len(w.ops)-1]
@@ -1501,6 +1525,39 @@ func (w *aWorld) oracleTimeTravel() {
 		return pub[i].M.Number < pub[j].M.Number
 	})
 
+	// The resolver may get part of the (published) history through the WithAdditionalOperations option
+	// instead of the store; what it resolves to must not depend on that split.
+	split := func(opts ...document.ResolutionOption) (*processor.OperationProcessor, []document.ResolutionOption) {
+		if len(pub) < 2 || w.k.T.Draw(2, "tt.additional") == 0 {
+			return w.proc, opts
+		}
+
+		tmp := simenv.NewOpStore(w.k, "")
+		tmp.Permute = w.permute
+
+		var extra []*operation.AnchoredOperation
+
+		for i, o := range pub {
+			c := *o.A
+			if i > 0 && w.k.T.Draw(3, "tt.additional.pick") == 0 {
+				extra = append(extra, &c)
+			} else {
+				tmp.Insert(&c)
+			}
+		}
+
+		for i := len(extra) - 1; i > 0; i-- {
+			j := w.k.T.Draw(i+1, "tt.additional.perm")
+			extra[i], extra[j] = extra[j], extra[i]
+		}
+
+		if len(extra) > 0 {
+			w.k.Count("probe:history-partly-as-additional-operations")
+		}
+
+		return processor.New("split", tmp, w.pc), append(opts, document.WithAdditionalOperations(extra))
+	}
+
 	truncated := func(keep func(i int, o *aOp) bool) *processor.OperationProcessor {
 		tmp := simenv.NewOpStore(w.k, "")
 		tmp.Permute = w.permute
@@ -1542,7 +1599,8 @@ func (w *aWorld) oracleTimeTravel() {
 
 	for _, t := range pickT {
 		vt := time.Unix(int64(t), 0).UTC().Format(time.RFC3339)
-		got, gerr := w.resolve(w.proc, document.WithVersionTime(vt))
+		proc, opts := split(document.WithVersionTime(vt))
+		got, gerr := w.resolve(proc, opts...)
 
 		any := false
 		for _, o := range pub {
@@ -1585,7 +1643,8 @@ func (w *aWorld) oracleTimeTravel() {
 
 	for _, i := range idx {
 		v := pub[i].A.CanonicalReference
-		got, gerr := w.resolve(w.proc, document.WithVersionID(v))
+		proc, opts := split(document.WithVersionID(v))
+		got, gerr := w.resolve(proc, opts...)
 		want, werr := w.resolve(truncated(func(j int, _ *aOp) bool { return j <= i }))
 
 		if a, b := dump(got, gerr, true), dump(want, werr, true); a != b {
